@@ -117,6 +117,10 @@ def run_case(case, tier):
     for cname in lim.rec["names"]:
         fa, _ = obs.index_groups(free.rec["confs"][cname])
         la, _ = obs.index_groups(lim.rec["confs"][cname])
+        # determinants whose label equals the label of a penalised group are deleted by label
+        # (a backbone group carries its residue's label), and which groups are penalised differs
+        # legitimately between the two runs: such determinants are not compared
+        pen = {g["label"] for g in list(fa.values()) + list(la.values()) if g["ctg"] is not None}
         for k, g in la.items():
             resid = (g["aid"][1], g["aid"][2], g["aid"][3])
             if resid not in Lset or not g["titratable"]:
@@ -133,8 +137,12 @@ def run_case(case, tier):
             def part(gr):
                 out = {}
                 for d in gr["det"]["backbone"]:
+                    if d[2] in pen:
+                        continue
                     out[("bb", tuple(d[0]))] = out.get(("bb", tuple(d[0])), 0.0) + d[3]
                 for d in gr["det"]["sidechain"]:
+                    if d[2] in pen:
+                        continue
                     if d[1][:3] in ("SER", "THR", "ASN", "GLN", "TRP"):
                         out[("sc", tuple(d[0]))] = out.get(("sc", tuple(d[0])), 0.0) + d[3]
                 return out
